@@ -218,10 +218,14 @@ pub fn run_trial(seed: u64, delay_us: u64, mode: u8, nets: usize) -> i32 {
                         rebind_ok = true;
                     }
                     drop(rebind);
+                    // (a connection that was still being established when the endpoint was closed drains
+                    // for 3 x PTO, about 3 s - longer in a sanitizer build - and references the socket
+                    // until then: the window must cover that to tell "released later" from "never")
+                    let late_window_ms: u64 = 12_000 * std::env::var("VERIF_DELAY_SCALE").ok().and_then(|s| s.parse::<u64>().ok()).unwrap_or(1).min(3);
                     if !rebind_ok {
                         // is the old socket released a moment later, without anybody doing anything?
                         let t1 = Instant::now();
-                        while t1.elapsed() < Duration::from_millis(1_500) {
+                        while t1.elapsed() < Duration::from_millis(late_window_ms) {
                             tokio::time::sleep(Duration::from_millis(5)).await;
                             if std::net::UdpSocket::bind(a).is_ok() || port_held_by_self(a.port()) == Some(false) {
                                 late_ms = Some(t1.elapsed().as_millis() as u64);
@@ -234,7 +238,17 @@ pub fn run_trial(seed: u64, delay_us: u64, mode: u8, nets: usize) -> i32 {
                 });
                 futures::future::join_all(futs).await
             });
-            for (a, returned, rebound, closed, peers, sub_err, weak_dead, took, late, clones_live, handlers_running) in res {
+            // the throw-away sockets every shut-down network binds (anemo's re-bind trick) get kernel-
+            // chosen ports: one of them may be the port another network of this process released a
+            // moment ago.  Such a collision between two networks of the trial is not a failure of the
+            // first network to release its socket - it is recognised by the other network's endpoint
+            // now reporting that very port as its local address.
+            let now_held: Vec<u16> = networks.iter().map(|n| n.local_addr().port()).collect();
+            for (a, returned, mut rebound, closed, peers, sub_err, weak_dead, took, late, clones_live, handlers_running) in res {
+                if !rebound && now_held.contains(&a.port()) {
+                    println!("NOTE port {} was handed by the kernel to another network of this trial as its throw-away socket", a.port());
+                    rebound = true;
+                }
                 println!("SHUTDOWN addr={a} returned={returned} rebind_ok={rebound} closed={closed} peers={peers} subscribe_err={sub_err} weak_dead={weak_dead} took_ms={took} idle_bound_ms={idle_ms} rebind_late_ms={late} service_clones_live={clones_live} handlers_running={handlers_running}");
                 // (the duration is judged in virtual time by the simulated scenarios, not here: a
                 // wall-clock deadline on a loaded machine is not a verdict)
